@@ -61,10 +61,6 @@ def run(ctx, cases_override=None):
     tpath = ctx.path("c19_trace.ndjson")
     ctx.vh("exec-c19", cpath, tpath)
     j = c06.run_judge(ctx, "LayoutWrapTrace", tpath, "c19", slices=10 if not ctx.thorough else 14)
-    if j["UNEXP"]:
-        cid, u = j["UNEXP"][0]
-        raise MachineryError("%d record(s) where the unwrapped document is not what the layout wrote (rendering bug or parser change): "
-                             "case %s %s\n%s" % (len(j["UNEXP"]), cid, json.dumps(u), "\n".join(cases[cid - 1]["base"])))
     viols = []
     for cid, v in j["VIOL"]:
         c = cases[cid - 1]
@@ -72,6 +68,11 @@ def run(ctx, cases_override=None):
                ("rules found in the wrapped document (%s) are not the rules of the unwrapped one displaced by the wrapper (first difference: %s)"
                 % (v["shape"], v["diff"]))
         viols.append({"sig": sig_of(v), "what": what, "case": {"lay": c["lay"], "lines": c["lines"], "base": c["base"]}, "detail": v})
+    # binding failures make the run unusable (exit 2) - unless real violations were found as well: those stand
+    if j["UNEXP"] and not vlib.partition_violations(ctx.prop, viols)[1]:
+        cid, u = j["UNEXP"][0]
+        raise MachineryError("%d record(s) where the unwrapped document is not what the layout wrote (rendering bug or parser change): "
+                             "case %s %s\n%s" % (len(j["UNEXP"]), cid, json.dumps(u), "\n".join(cases[cid - 1]["base"])))
     if os.environ.get("C19_DUMP"):
         write_ndjson(os.environ["C19_DUMP"], [dict(v["detail"], sig=v["sig"], lines=v["case"]["lines"]) for v in viols])
     wrapped = [c for c in cases if c["lines"] != c["base"]]
